@@ -66,7 +66,9 @@ fn apply(b: m::Builder, c: &Call) -> (m::Builder, Vec<u8>) {
             (b.bootloader(t), i)
         }
         2 => {
-            let s = w(k, 0) as u32 & 0x7fff_ffff;
+            // every fourth key draws the start address from a pool of four, so that
+            // histories contain modules that share a start address (or a range)
+            let s = if k & 3 == 0 { (k >> 2 & 3) * 0x1000 } else { w(k, 0) as u32 & 0x7fff_ffff };
             let t = m::ModuleTag::new(s, s + 1 + (w(k, 1) as u32 & 0xffff), &text(k, n));
             let i = image(&*t);
             (b.add_module(t), i)
@@ -177,7 +179,9 @@ fn apply(b: m::Builder, c: &Call) -> (m::Builder, Vec<u8>) {
             (b.image_load_addr(t), i)
         }
         _ => {
-            let ty = 22 + k % 100_000;
+            // half of the keys draw the custom type id from a pool of three, so that
+            // ids repeat (adjacent and interleaved) within one history
+            let ty = if k & 1 == 0 { 0x1000 + (k >> 1) % 3 } else { 22 + k % 100_000 };
             let t = multiboot2_common::new_boxed::<m::DynSizedStructure<m::TagHeader>>(m::TagHeader::new(m::TagType::Custom(ty), 0), &[&blob(k, n)]);
             let i = image(&*t);
             (b.add_custom_tag(t), i)
@@ -308,7 +312,7 @@ fn enumerate(ctx: &Ctx) -> Box<dyn Iterator<Item = Case>> {
 }
 
 fn strategy(_: &Ctx) -> BoxedStrategy<Case> {
-    proptest::collection::vec((0u8..SLOTS as u8, prop_oneof![4 => 0u8..12, 1 => 12u8..41], any::<u32>()), 0..=30)
+    proptest::collection::vec((prop_oneof![3 => 0u8..SLOTS as u8, 1 => proptest::sample::select(vec![2u8, 12, 21])], prop_oneof![4 => 0u8..12, 1 => 12u8..41], prop_oneof![2 => any::<u32>(), 1 => 0u32..16]), 0..=30)
         .prop_map(|v| Case { calls: v.into_iter().map(|(slot, n, key)| Call { slot, n, key }).collect() })
         .boxed()
 }
